@@ -301,22 +301,43 @@ Definition extra_ann (children : list child) (ref : str) (pf : Z) (mdigest : str
   | c :: _ => extra_over (cri_ann ref mdigest suffix) children pf c
   end.
 
-Fixpoint write_default (manifest : bool) (ref : str) (pf : Z) (suffix : list child) : list labels :=
+(* Annotations the manifest itself carries on a descriptor (a0) are in the map before the handlers run: every
+   handler assignment is a Go map assignment on top of them (overwrite or add), "nop if already set" tests see them. *)
+Definition lset_all (l0 w : labels) : labels := fold_left (fun l kv => lset l (fst kv) (snd kv)) w l0.
+
+Definition default_ann_over (a0 : labels) (ref : str) (pf : Z) (suffix : list child) : labels :=
+  lset_all a0 (default_ann ref pf suffix).
+
+Definition cri_ann_over (a0 : labels) (ref mdigest : str) (suffix : list child) : labels :=
+  lset_all a0 (cri_ann ref mdigest suffix).
+
+Definition extra_ann_over (a0 : labels) (children : list child) (ref : str) (pf : Z) (mdigest : str)
+           (suffix : list child) : option labels :=
+  match suffix with
+  | [] => Some a0
+  | c :: _ => extra_over (cri_ann_over a0 ref mdigest suffix) children pf c
+  end.
+
+(* [pres] = the pre-existing annotations of the children of [suffix], position by position (missing = none) *)
+Fixpoint write_default (manifest : bool) (ref : str) (pf : Z) (suffix : list child) (pres : list labels)
+  : list labels :=
   match suffix with
   | [] => []
   | c :: t =>
-      (if manifest && c_layer c then default_ann ref pf suffix else []) :: write_default manifest ref pf t
+      (if manifest && c_layer c then default_ann_over (hd [] pres) ref pf suffix else hd [] pres)
+        :: write_default manifest ref pf t (tl pres)
   end.
 
 Fixpoint write_extra (manifest : bool) (children : list child) (ref : str) (pf : Z) (mdigest : str)
-         (suffix : list child) : option (list labels) :=
+         (suffix : list child) (pres : list labels) : option (list labels) :=
   match suffix with
   | [] => Some []
   | c :: t =>
-      match (if manifest && c_layer c then extra_ann children ref pf mdigest suffix else Some []) with
+      match (if manifest && c_layer c then extra_ann_over (hd [] pres) children ref pf mdigest suffix
+             else Some (hd [] pres)) with
       | None => None
       | Some l =>
-          match write_extra manifest children ref pf mdigest t with
+          match write_extra manifest children ref pf mdigest t (tl pres) with
           | None => None
           | Some ls => Some (l :: ls)
           end
@@ -443,6 +464,7 @@ Record case := mkCase {
   k_manifest : bool;         (* the handled descriptor is an image manifest *)
   k_ref : str; k_pf : Z; k_mdigest : str;
   k_children : list child;
+  k_pre : list labels;       (* annotations the manifest carries on the children, position by position ([] = none at all) *)
   k_good_refs : list (str * str); (* reference strings of this case accepted by containerd's reference.Parse, with the parsed Spec *)
   k_ann : option (list (option labels));  (* observed annotations per child (inner None = not recorded for this
                                              child, large manifests); outer None = the handler returned an error *)
@@ -454,8 +476,8 @@ Definition ref_ok_of (good : list (str * str)) (s : str) : option str :=
 
 Definition model_ann (c : case) : option (list labels) :=
   if k_extra c
-  then write_extra (k_manifest c) (k_children c) (k_ref c) (k_pf c) (k_mdigest c) (k_children c)
-  else Some (write_default (k_manifest c) (k_ref c) (k_pf c) (k_children c)).
+  then write_extra (k_manifest c) (k_children c) (k_ref c) (k_pf c) (k_mdigest c) (k_children c) (k_pre c)
+  else Some (write_default (k_manifest c) (k_ref c) (k_pf c) (k_children c) (k_pre c)).
 
 Fixpoint anns_eqb (m : list labels) (o : list (option labels)) : bool :=
   match m, o with
@@ -515,6 +537,7 @@ Definition Ch (layer : bool) (d : String.string) (us : list String.string) : chi
   mkChild layer (s2b d) (map s2b us).
 Definition L (cs : list child) (k : key) (v : list piece) : key * str := (k, V cs v).
 Definition KO (s : String.string) : key := KOther (s2b s).
+Definition A (k : key) (v : String.string) : key * str := (k, s2b v).
 Definition MSs (cs : list child) (k : key) (v : list piece) : mut := MS k (V cs v).
 Definition Nb (cs : list child) (d : list piece) (us : list (list piece)) : str * list str :=
   (V cs d, map (V cs) us).
@@ -522,6 +545,6 @@ Definition RO (cs : list child) (ref : String.string) (dg : list piece) (us : li
            (n : list (str * list str)) : rd :=
   ROk (s2b ref) (V cs dg) (map (V cs) us) n.
 Definition mkCaseS (extra manifest : bool) (ref : String.string) (pf : Z) (md : String.string)
-           (cs : list child) (good : list (String.string * String.string))
+           (cs : list child) (pre : list labels) (good : list (String.string * String.string))
            (ann : option (list (option labels))) (ps : list probe) : case :=
-  mkCase extra manifest (s2b ref) pf (s2b md) cs (map (fun p => (s2b (fst p), s2b (snd p))) good) ann ps.
+  mkCase extra manifest (s2b ref) pf (s2b md) cs pre (map (fun p => (s2b (fst p), s2b (snd p))) good) ann ps.
